@@ -233,9 +233,16 @@ static Verdict c09_random(const Case& c) {
   if (division && b[0] == 0) return Verdict::skip("division-by-zero");
   const bool exact = integer && !division && op != V_MAG && op != P_MAG;
   if ((op == S_INV || op == D_INV) && !integer) {
-    // value of the inverse: A * A^-1 = I for well-conditioned tensors (the generator makes A diagonally dominant)
-    LD inv[9];
-    if (!lib(nt, op, a, b, inv)) return Verdict::fail(fmt("%s of the diagonally dominant %s in %s is absent", o.name, cs(a, o.na).c_str(), ntinfo(nt).name));
+    // real tensors: (i) the inverse is absent exactly when the determinant (as the library itself computes it) is zero;
+    // (ii) for the diagonally dominant ones (mode 2, any power-of-two scale) A * A^-1 = I
+    const int mode = (int)c.i[3];
+    LD inv[9], det[1];
+    const bool present = lib(nt, op, a, b, inv);
+    lib(nt, op == S_INV ? S_DET : D_DET, a, b, det);
+    if (present != (det[0] != 0)) return Verdict::fail(fmt("%s of %s in %s is %s although Determinant() = %s", o.name, cs(a, o.na).c_str(), ntinfo(nt).name, present ? "present" : "absent", decld(det[0]).c_str()));
+    // the same tensor through the other type: a symmetric tensor and its embedding in Dyad agree on presence whenever their determinants agree on being zero
+    if (mode != 2) { Verdict V; V.cls = std::string(ntinfo(nt).name) + ";inverse-presence;" + (present ? "present" : "absent"); V.nontrivial = true; return V; }
+    if (!present) return Verdict::fail(fmt("%s of the diagonally dominant %s in %s is absent", o.name, cs(a, o.na).c_str(), ntinfo(nt).name));
     const M3 A = mat_of(o.na, a), B = mat_of(o.na, inv);
     Q na = 0, nb = 0; for (int i = 0; i < 3; i++) { Q ra = 0, rb = 0; for (int j = 0; j < 3; j++) { ra += fabsq(A.m[i][j]); rb += fabsq(B.m[i][j]); } if (ra > na) na = ra; if (rb > nb) nb = rb; }
     const double cond = (double)(na * nb);
@@ -267,13 +274,22 @@ static rc::Gen<Case> gen_c09_random(int inst) {
       if (o.na == 9) { const int r0 = std::get<1>(t), r1 = std::get<2>(t); if (r0 != r1) for (int j = 0; j < 3; j++) v[(size_t)(3 * r0 + j)] = 2 * v[(size_t)(3 * r1 + j)]; }
       else { const int k = std::get<1>(t); static const int row[3][3] = {{0, 1, 2}, {1, 3, 4}, {2, 4, 5}}; for (int j = 0; j < 3; j++) v[(size_t)row[k][j]] = 0; }
       return v; });
-    auto dominant = rc::gen::map(gen_reals(n, nt, -2, 2, kNeg), [=](std::vector<LD> v) {
+    // power-of-two scale: the determinant (scale^3) stays inside the normal range
+    const int kmaxs = nt == 0 ? 30 : nt == 1 ? 300 : 3000;
+    auto dominant = rc::gen::map(rc::gen::tuple(gen_reals(n, nt, -2, 2, kNeg), irange(-kmaxs, kmaxs)), [=](const std::tuple<std::vector<LD>, int>& t) {
+      std::vector<LD> v = std::get<0>(t);
       static const int d9[3] = {0, 4, 8}, d6[3] = {0, 3, 5};
       LD s = 0; for (LD x : v) s += std::fabs(x);
       for (int k = 0; k < 3; k++) { size_t i = (size_t)(o.na == 9 ? d9[k] : d6[k]); v[i] = round_to(nt, (v[i] < 0 ? -1 : 1) * (std::fabs(v[i]) + s)); }
+      for (auto& x : v) x = std::ldexp(x, std::get<1>(t));
       return v; });
-    return rc::gen::mapcat(irange(0, 2), [=](int mode) {
-      return rc::gen::map(mode == 0 ? ints : mode == 1 ? singular : dominant, [=](const std::vector<LD>& v) { Case c; c.i = {nt, op, mode != 2}; c.r = v; return c; }); });
+    auto anyreal = rc::gen::map(rc::gen::tuple(gen_reals(n, nt, -3, 3, kNeg | kZero), irange(-kmaxs, kmaxs), irange(0, 3)), [=](const std::tuple<std::vector<LD>, int, int>& t) {
+      std::vector<LD> v = std::get<0>(t);
+      if (std::get<2>(t) == 0 && o.na == 9) for (int j = 0; j < 3; j++) v[(size_t)(3 + j)] = round_to(nt, v[(size_t)j] * 1.5L);   // a row that is a multiple of another: determinant zero up to rounding
+      for (auto& x : v) x = std::ldexp(x, std::get<1>(t));
+      return v; });
+    return rc::gen::mapcat(irange(0, 3), [=](int mode) {
+      return rc::gen::map(mode == 0 ? ints : mode == 1 ? singular : mode == 2 ? dominant : anyreal, [=](const std::vector<LD>& v) { Case c; c.i = {nt, op, mode <= 1, mode}; c.r = v; return c; }); });
   }
   return rc::gen::mapcat(irange(0, 1), [=](int integer) { return rc::gen::map(integer ? ints : reals, [=](const std::vector<LD>& v) { Case c; c.i = {nt, op, integer}; c.r = v; return c; }); });
 }
